@@ -142,7 +142,16 @@ def check(acc, m: Mol, sz, rebuild=False):
     if status != "ok":
         acc.count("parse_dropped")
         return
+    rebuild = int(rebuild)
     case = {"text": text, "ast": m.to_json(), "sz": sz, "rebuild": rebuild}
+    if rebuild == 2:
+        # the graph must not depend on what was built or generated from the same object before
+        import numpy as np
+        probe.guarded(lambda: obj.gen_stochastic_atom_graph(expect_schulz_zimm_distribution=not sz), seconds=60)
+        probe.guarded(obj.gen_reaction_graph, seconds=60)
+        probe.guarded(lambda: obj.generate(rng=np.random.default_rng(0)), seconds=60)
+        probe.guarded(lambda: obj.gen_stochastic_atom_graph(expect_schulz_zimm_distribution=sz), seconds=60)
+        acc.label("history_before_graph")
     status, sag = probe.guarded(lambda: obj.gen_stochastic_atom_graph(expect_schulz_zimm_distribution=sz), seconds=60)
     lists = any(b.transitions for t in m.tokens for b in t.bds)
     sig0 = {"lists": bool(lists)}
@@ -150,7 +159,7 @@ def check(acc, m: Mol, sz, rebuild=False):
         acc.case(None, labels=["graph_raised"])
         acc.violation("graph_raises", f"gen_stochastic_atom_graph({sz}) of {text!r} raised {sag!r}", case, {**sig0, "error": type(sag).__name__ if status == "raise" else status}, size=len(text))
         return
-    if rebuild:
+    if rebuild == 1:
         # building the graph again on the same object must give the same graph
         st_r, _ = probe.guarded(sag.generate, seconds=60)
         if st_r != "ok":
@@ -240,7 +249,7 @@ def check(acc, m: Mol, sz, rebuild=False):
 def run_shard(cfg):
     acc = Acc()
     n = max(1, SIZES[cfg["tier"]] // cfg["nshards"])
-    drive(st.tuples(mol_case(), st.sampled_from([False, False, True])), lambda x: check(acc, x[0][0], x[0][1], x[1]), n, cfg["seed"])
+    drive(st.tuples(mol_case(), st.sampled_from([0, 0, 1, 2])), lambda x: check(acc, x[0][0], x[0][1], x[1]), n, cfg["seed"])
     return acc
 
 
